@@ -37,7 +37,7 @@ BallStartEv == {BWS, BSG, BSD}
 MainEv == {GWS, GSG, GSD, BWE, BEG, BED, GWE, GEG, GED} \cup TurnEv \cup BallStartEv
 Fresh == [pc |-> "idle", pe |-> "none", held |-> FALSE, np |-> 0, cur |-> 0, ball |-> Zero, extra |-> Zero, bip |-> 0,
           ending |-> FALSE, slam |-> FALSE, flag |-> FALSE, alo |-> FALSE, drn |-> FALSE, isx |-> FALSE,
-          nreq |-> 0, padd |-> [p \in P |-> "none"], pheld |-> [p \in P |-> FALSE],
+          nreq |-> 0, ncb |-> 0, padd |-> [p \in P |-> "none"], pheld |-> [p \in P |-> FALSE],
           \* monitors / ghosts
           cause |-> FALSE, endReq |-> FALSE, g |-> "idle", gp |-> 0, tc |-> Zero]
 InitWith(c) == /\ cfg = c /\ s = Fresh /\ k = [ops |-> 0, aw |-> 0, holds |-> 0, games |-> 0, ev |-> 0]
@@ -53,12 +53,12 @@ SetBipF(st, v) == LET w == IF v > cfg.known THEN cfg.known ELSE IF v < 0 THEN 0 
 RealGuard(st) == ~st.ending /\ st.np < cfg.maxp /\ ~(st.cur # 0 /\ st.ball[st.cur] > 1)
 LateWindow(st) == st.cur # 0 /\ st.ball[st.cur] >= 1 /\ st.pe \in {TWS, TSG} /\ st.pc \in {"posted", "dlv"}
 Accept(st) == /\ RealGuard(st)
-              /\ ("AddRace" \in Deviations \/ st.np + st.nreq < cfg.maxp)
+              /\ ("AddRace" \in Deviations \/ st.np + st.nreq + st.ncb < cfg.maxp)
               /\ ("LateAdd" \in Deviations \/ ~LateWindow(st))
 \* ---- the coroutine --------------------------------------------------------------------------------------
-IdealSkip(st) == "NoPlayerHang" \notin Deviations /\ st.ending /\ st.np = 0 /\ st.nreq = 0
+IdealSkip(st) == "NoPlayerHang" \notin Deviations /\ st.ending /\ st.np = 0 /\ st.nreq = 0 /\ st.ncb = 0
 \* a posted player_add_request is processed by the event bus before the coroutine gets its next turn
-AdvEnabled(st) == /\ st.nreq = 0
+AdvEnabled(st) == /\ st.nreq = 0 /\ st.ncb = 0
                   /\ \/ st.pc = "boot"
                      \/ st.pc = "dlv" /\ ~st.held
                      \/ st.pc = "waitplayer" /\ (st.alo \/ IdealSkip(st))
@@ -127,15 +127,18 @@ Deliver == /\ s.pc = "posted"
                 Do(DeliverF(s, h), [op |-> "ev", name |-> s.pe, hold |-> h, number |-> 0, deny |-> FALSE],
                    [k EXCEPT !.ev = IF @ < QuietUntil THEN @ + 1 ELSE @, !.holds = IF h THEN @ + 1 ELSE @])
 \* player-add pipeline
-ReqAdd == /\ GameOn(s) /\ Budget /\ s.np + s.nreq < PMax
+ReqAdd == /\ GameOn(s) /\ Budget /\ s.np + s.nreq + s.ncb < PMax
           /\ Do(IF Accept(s) THEN [s EXCEPT !.nreq = @ + 1] ELSE s, [op |-> "req", kind |-> "add", ok |-> Accept(s)], Op1)
+\* the handlers of the boolean event run; its callback (which creates the player) runs once the bus has drained
 DeliverReq == /\ s.nreq > 0
               /\ \E d \in (IF Denies /\ Budget THEN BOOLEAN ELSE {FALSE}) :
-                   Do(IF d THEN [s EXCEPT !.nreq = @ - 1]
-                      ELSE [s EXCEPT !.nreq = @ - 1, !.np = @ + 1, !.padd[s.np + 1] = "will",
-                                     !.ball[s.np + 1] = 0, !.extra[s.np + 1] = 0],
+                   Do([s EXCEPT !.nreq = @ - 1, !.ncb = IF d THEN @ ELSE @ + 1],
                       [op |-> "ev", name |-> "player_add_request", hold |-> FALSE, number |-> 0, deny |-> d],
                       IF d THEN Op1 ELSE k)
+\* _player_add_request_complete: posts player_will_add, creates the Player, posts player_adding
+PCreate == /\ s.ncb > 0
+           /\ Do([s EXCEPT !.ncb = @ - 1, !.np = @ + 1, !.padd[s.np + 1] = "will", !.ball[s.np + 1] = 0, !.extra[s.np + 1] = 0],
+                 [op |-> "adv"], k)
 DeliverWill(p) == /\ s.padd[p] = "will"
                   /\ Do([s EXCEPT !.padd[p] = "posted"], [op |-> "ev", name |-> "player_will_add", hold |-> FALSE, number |-> p, deny |-> FALSE], k)
 DeliverAdding(p) == /\ s.padd[p] = "posted"
@@ -168,7 +171,7 @@ Award == /\ GameOn(s) /\ s.cur # 0 /\ Budget /\ k.aw < MaxAwards
 Release == s.pc = "dlv" /\ s.held /\ Do([s EXCEPT !.held = FALSE], [op |-> "req", kind |-> "release", name |-> s.pe], k)
 PRelease(p) == s.padd[p] = "dlv" /\ s.pheld[p] /\ Do([s EXCEPT !.pheld[p] = FALSE], [op |-> "req", kind |-> "prelease", n |-> p], k)
 Start == s.pc = "idle" /\ k.games < MaxGames /\ Do([s EXCEPT !.pc = "boot"], [op |-> "req", kind |-> "start"], [k EXCEPT !.games = @ + 1])
-Pipeline == DeliverReq \/ \E p \in P : DeliverWill(p) \/ DeliverAdding(p) \/ PComplete(p) \/ DeliverAdded(p)
+Pipeline == DeliverReq \/ PCreate \/ \E p \in P : DeliverWill(p) \/ DeliverAdding(p) \/ PComplete(p) \/ DeliverAdded(p)
 Env == \/ EndBall \/ EndGame \/ SlamTilt \/ Award \/ ReqAdd \/ Release \/ Start
        \/ \E n \in 0..(cfg.known + 1) : SetBip(n)
        \/ \E n \in 1..2 : Drain(n)
@@ -178,7 +181,7 @@ Spec == Init /\ [][Next]_vars
 LiveSpec == Spec /\ WF_vars(Adv) /\ WF_vars(Deliver) /\ WF_vars(Pipeline)
 \* ---- the statement of C06 --------------------------------------------------------------------------------
 TypeOK == /\ s.pc \in {"idle", "boot", "posted", "dlv", "waitplayer", "live"}
-          /\ s.np \in 0..PMax /\ s.cur \in 0..PMax /\ s.nreq >= 0
+          /\ s.np \in 0..PMax /\ s.cur \in 0..PMax /\ s.nreq >= 0 /\ s.ncb >= 0
           /\ (s.pc \in {"posted", "dlv", "live", "waitplayer"} => s.pe \in MainEv)
 \* the delivered lifecycle events form the nesting grammar, with the right player and ball numbers
 Grammar == s.g # "bad"
